@@ -489,7 +489,16 @@ impl Config {
                             })?;
                         let base: u32 = subnet.network().into();
                         let addresses = addresses.get_or_insert_with(Vec::new);
-                        for i in 1..(((1 << (32 - subnet.prefixlen)) - 1) - 1) {
+                        /* The number of addresses in the subnet, a /0 cannot be enumerated. */
+                        let size = 1_u32
+                            .checked_shl(32 - u32::from(subnet.prefixlen))
+                            .ok_or_else(|| {
+                                Error::InvalidConfig(format!(
+                                    "apply-subnet {} is too large to enumerate",
+                                    subnet
+                                ))
+                            })?;
+                        for i in 1..(size.saturating_sub(1).saturating_sub(1)) {
                             addresses.push((base + i).into())
                         }
                     }
